@@ -126,8 +126,12 @@ def gen_doc(rng):
         return out
 
     def mixed():
-        """columns and groups side by side in one section (at least one of each), mj-raw anywhere"""
-        kinds = ["C", "G"] + [rng.choice(["C", "G", "R"]) for _ in range(rng.choice([0, 1, 2, 3]))]
+        """columns and groups side by side in one section, mj-raw anywhere; now and then groups and mj-raw only (the shared Outlook row with no column)"""
+        if rng.random() < 0.25:
+            kinds = ["G", "R"] + [rng.choice(["G", "R"]) for _ in range(rng.choice([0, 1, 2]))]
+            tags.add("groups-and-raw")
+        else:
+            kinds = ["C", "G"] + [rng.choice(["C", "G", "R"]) for _ in range(rng.choice([0, 1, 2, 3]))]
         rng.shuffle(kinds)
         out = []
         for k in kinds:
